@@ -173,6 +173,26 @@ example :
     [some [.normal ['a'], .normal ['u', '.', 'l', 'u', 'a', 'u']],
      some [.normal ['b'], .normal ['u', '.', 'l', 'u', 'a', 'u']]] := by decide
 
+/-! ## `.luaurc` aliases -/
+
+/-- luau mode: an alias defined by the governing `.luaurc` is used as that file gives it (already
+joined to the `.luaurc`'s own directory by `luauRcAliases`): neither the darklua configuration's
+location nor its own `aliases` change it. -/
+theorem luau_rc_alias_ignores_project_location (m : LuauMode) (name : Name) (a rel rel' : Path)
+    (h : m.rc.bind (lookup · name) = some a) :
+    getSourceLuau m name rel = some a ∧ getSourceLuau m name rel' = some a := by
+  simp [getSourceLuau, h]
+
+/-- path mode: the `.luaurc` is consulted only for names `sources` does not define, and then as
+it is. -/
+theorem path_rc_alias_is_fallback (m : PathMode) (name : Name) (a rel : Path)
+    (hs : lookup m.sources name = none) (h : m.rc.bind (lookup · name) = some a) :
+    getSourcePath m name rel = some a := by
+  simp [getSourcePath, hs, h]
+
+example : luauRcAliases [.normal ['p', 'k', 'g']] [(['l', 'i', 'b'], [.cur, .normal ['l', 'i', 'b']])] =
+    [(['@', 'l', 'i', 'b'], [.normal ['p', 'k', 'g'], .normal ['l', 'i', 'b']])] := by decide
+
 /-! ## Heads: relative requires start at the requiring file's directory -/
 
 theorem resolve_dropCur (cwd : List Name) (p : Path) : resolve cwd (dropCur p) = resolve cwd p := by
